@@ -269,7 +269,8 @@ def truth(cfg, name, m, t, s, rec):
             return False
         if name == "IPADDR_BRACKET_UNPAIR":
             return b"]" not in D
-        return True
+        # "ip-addr is incorrect" is untrue of a literal the statement of C05 obliges every mode to accept
+        return OD.literal_verdict(D)[0] != OD.MUST_ACCEPT
     if dom is None:
         return None
     if name == "IDN_ERROR":
